@@ -12,6 +12,10 @@ def main():
     chk.assume(*e2prop.E2_ASSUME)
     chk.assume('operands of the row-walking kernels have at least one stored entry (entry-free matrices carry no arrays; their handling is checked under C02/C20)', 'rows sorted and duplicate-free (layout invariant)', 'sqrt modelled as s >= 0, s*s = x')
     e2prop.run_e2(chk, e2prop.e2_harness_path('c03_e2.cpp'), 'c03_e2', timeout=60, harness_args=['--bounds'] + b)
+    # blocked slice: BCSR with non-square 2x3 blocks (and 2x2 for extract_diag)
+    chk.bounds.append('E2 blocked slice: SparseMatrixBCSR<2,3> and <2,2> with 1..2 block rows/cols and every block pattern with 1..3 blocks; scale, axpy, norm_frobenius, row_norm2(sqr) plain and scaled, lump_rows, scale_rows, scale_cols, transpose, extract_diag')
+    chk.functions += ['LAFEM::SparseMatrixBCSR<SymReal,Index,2,3>::{scale,axpy,norm_frobenius,row_norm2,row_norm2sqr(+scaled),lump_rows,scale_rows,scale_cols,transpose}', 'LAFEM::SparseMatrixBCSR<SymReal,Index,2,2>::extract_diag', 'LAFEM::Arch::{RowNorm,Lumping,ScaleRows,ScaleCols}::bcsr*_generic']
+    e2prop.run_e2(chk, e2prop.e2_harness_path('c03b_e2.cpp'), 'c03b_e2', timeout=30 if quick else 300, harness_args=['--bounds', '2', '3' if quick else '4'])
     return chk.finish(
         explanation='Bounded symbolic check: matrix-level operations of the real SparseMatrixCSR class run on a symbolic real scalar for every pattern configuration in the bound; z3 decides equality with the dense textbook formula restricted to the output pattern for ALL real values; with allow_incomplete=false and a missing output entry the abort must be reached.',
         rule=e2prop.E2_RULE, trusted=e2prop.E2_TRUSTED)
